@@ -55,6 +55,9 @@ def gen_hists(rng, quick):
                 hs.append(" ".join(ops))
         for h in hs:
             H.append("HIST %s %s %s %d 0.01 %s" % (p, sp, env, rng.randint(1, 10 ** 6), h))
+        # an unreachable goal: every report is approximate; a ladder of short resumed solves must never make it worse
+        for _ in range(2 if quick else 6):
+            H.append("HIST %s %s blocked %d 0.01 %s D" % (p, sp, rng.randint(1, 10 ** 6), " ".join("S%d" % rng.choice([1, 2, 3, 4, 5, 8, 13, rng.randint(6, 40)]) for _ in range(rng.randint(4, 8)))))
     return H
 
 
@@ -212,7 +215,14 @@ def main():
                 if prev is not None and prev["query"] == cur_q and not fresh:
                     if prev["exact"] and st["approx"]: pred(j, "a resumed solve() lost the exact solution held before (op %d '%s')" % (k, o))
                     if prev["exact"] and not st["approx"] and op.get("len", 0) > prev["len"] + 10: pred(j, "after a resumed solve() the best solution is longer than before: %g > %g (op %d '%s')" % (op.get("len", 0) / 1e9, prev["len"] / 1e9, k, o))
-                prev = {"query": cur_q, "exact": not st["approx"], "len": op.get("len", 0)}
+                    # both approximate: the reported path must not end farther from the goal than the one reported before
+                    # (distance of the path's last state to the goal, measured by the harness, and the recorded difference)
+                    if (not prev["exact"]) and st["approx"]:
+                        if op["P"][-1]["gdist"] > prev["gdist"] + 1000:
+                            pred(j, "a resumed solve() made the reported approximate solution worse: its end is %.9f from the goal, the one reported before was %.9f (op %d '%s')" % (op["P"][-1]["gdist"] / 1e9, prev["gdist"] / 1e9, k, o))
+                        elif st["diff"] > prev["diff"] + 1000 and prev["diff"] >= 0:
+                            pred(j, "a resumed solve() increased the reported solution difference: %.9f -> %.9f (op %d '%s')" % (prev["diff"] / 1e9, st["diff"] / 1e9, k, o))
+                prev = {"query": cur_q, "exact": not st["approx"], "len": op.get("len", 0), "gdist": op["P"][-1]["gdist"], "diff": st["diff"]}
             fresh = False
     rc3, o3, e3, s3 = vf.sh([model, "ledger"], input="\n".join(feed) + "\n", timeout=3000)
     c.step("correspond:model", model + " ledger", s3, rc3 == 0)
